@@ -350,19 +350,20 @@ def run(R):
     R.encode(K.fold, base.Filterbank.fold, timeseries.TimeSeries.fold)
     quick = R.tier == "quick"
     base_cfg = dict(nchans=2, nsamps=3, maxdelay=1, nbins=3, nints=2, nsubs=2, total=8, tsamp=0.5, period=1.5, accel=0.0)
-    cfgs = [dict(base_cfg), dict(base_cfg, period=1.25, nchans=3, nsubs=2, nsamps=2)]
+    # the third configuration puts nbins*t*tsamp/period exactly on half-integers (rounding convention of the phase)
+    cfgs = [dict(base_cfg), dict(base_cfg, period=1.25, nchans=3, nsubs=2, nsamps=2), dict(base_cfg, nbins=2, tsamp=0.25, period=1.0, nchans=1, nsubs=1, maxdelay=0)]
     if not quick:
         cfgs += [dict(base_cfg, period=2.0, nints=1), dict(base_cfg, nchans=3, nsubs=2, nsamps=3, maxdelay=2, total=9, nints=2),
                  dict(base_cfg, nbins=2, tsamp=0.25, period=0.75), dict(base_cfg, nchans=1, nsubs=1, nsamps=4, maxdelay=0, total=10, nints=3)]
     R.bounds.update(dict(kernel="nsamps<=4, nchans<=3, nbins<=3, nints<=3, nsubs<=2; data, delays in [0,maxdelay] and (accel=0) the block offset index symbolic; "
-                                "(tsamp, period) in {(0.5,1.5),(0.5,1.25),(0.5,2.0),(0.25,0.75)}; accel != 0: index enumerated",
+                                "(tsamp, period) in {(0.5,1.5),(0.5,1.25),(0.25,1.0),(0.5,2.0),(0.25,0.75)}; accel = 299792448 m/s^2 (term of order one): index enumerated",
                          streaming="N, gulp, start, nsamps, delays unbounded; <= 3 blocks; nbins=3, nints=2, nbands=4",
                          configs=[str(c) for c in cfgs]))
     R.assume("exact arithmetic for the phase (float32 evaluation near bin edges is outside the claim)",
              "delays 0 at channel 0, non-decreasing, <= maxdelay < nsamps", "the fold kernel contract used by the streaming harness is the recorded call itself (its semantics is part A)")
     R.out_of_claim("float32 phase rounding", "accelerations with a symbolic block offset", "more blocks / larger shapes than the bounds")
     items = [("kernel", c, None) for c in cfgs]
-    acc_cfg = dict(base_cfg, accel=2.0e7, total=6, nsamps=3)
+    acc_cfg = dict(base_cfg, accel=299792448.0, total=6, nsamps=3)    # accel ~ c: the acceleration term is of order one
     for idx in ((0, 2) if quick else (0, 1, 2, 3, 4)):
         items.append(("kernel", acc_cfg, idx))
     for nbits, nchans in ([(8, 2)] if quick else [(8, 2), (8, 3), (2, 4), (32, 2)]):
